@@ -40,6 +40,7 @@ type Event struct {
 	Deferred bool
 	InDefer  bool // executed while running deferred calls
 	Blocking bool // select without default
+	Ok       *Term // the "received from an open channel" flag of a select / v, ok := <-ch
 }
 
 func (e *Event) CalleeName() string {
@@ -1273,6 +1274,9 @@ func (s *Sim) simInstrs(fr *Frame, st *State, b *ssa.BasicBlock, from int, k con
 				args = append(args, &Term{Op: "sym", Name: fmt.Sprintf("select.%d:%s", j, id), Type: tt.At(j).Type()})
 			}
 			fr.env[x] = &Term{Op: "tuple", Type: x.Type(), Args: args}
+			if len(args) > 1 {
+				ev.Ok = args[1]
+			}
 		case *ssa.Go:
 			ev := s.callEvent(fr, st, x, &x.Call)
 			ev.Kind = "go"
@@ -1504,9 +1508,11 @@ func (s *Sim) unop(fr *Frame, st *State, x *ssa.UnOp) {
 	case token.ARROW:
 		id := s.uid(st, fr, x)
 		res := &Term{Op: "sym", Name: "recv:" + id, Type: x.Type()}
-		s.emit(st, fr, &Event{Kind: "recv", Instr: x, Addr: v, Result: res, Blocking: true})
+		rev := &Event{Kind: "recv", Instr: x, Addr: v, Result: res, Blocking: true}
+		s.emit(st, fr, rev)
 		s.havocWorld(st)
 		if x.CommaOk {
+			rev.Ok = &Term{Op: "sym", Name: "recv.ok:" + id, Type: tBool}
 			tt := x.Type().(*types.Tuple)
 			res = &Term{Op: "tuple", Type: x.Type(), Args: []*Term{
 				{Op: "sym", Name: "recv.v:" + id, Type: tt.At(0).Type()},
